@@ -26,6 +26,12 @@ impl<T: WorldReactor> WorldReactorRes<T>
     }
 }
 
+#[cfg(feature = "verif")]
+impl<T: WorldReactor> WorldReactorRes<T>
+{
+    pub(crate) fn verif_sys_command(&self) -> SystemCommand { self.sys_command }
+}
+
 //-------------------------------------------------------------------------------------------------------------------
 
 /// Trait for persistent reactors that are registered in the world.
